@@ -210,21 +210,22 @@ theorem step_oc_back [MonoCapOps R] (cfg : Config) (db : DB R) (op : Op R) (hs :
     exact hReshape_oc_back hu hs.rcIds hs.rpIds hwf.1 hpos
       (fun c hc x hx => hnn x (List.mem_flatMap.mpr ⟨c, hc, hx⟩)) ho hn
 /-- C01, first sentence, for the step function -/
-theorem step_placed_safe (cfg : Config) (db : DB R) (op : Op R) (hs : StateOK db) (hwf : op.WF)
+theorem step_placed_safe (cfg : Config) (db : DB R) (op : Op R) (hk : InvKeysNodup db)
+    (hrc : RcIdsNodup db) (hrp : RpIdsNodup db) (hwf : op.WF)
     (hok : (step cfg db op).2.ok = true) :
     ∀ x ∈ op.placed, 0 < x.2.2 → PlacedSafe db (step cfg db op).1 x := by
   have hnn := hwf.nonneg
   cases op with
-  | allocPut mv c => exact hAllocPut_safe hs.invKeys hnn hok
+  | allocPut mv c => exact hAllocPut_safe hk hnn hok
   | allocPost mv cs =>
     intro x hx hp
     obtain ⟨c, hc, hxc⟩ := List.mem_flatMap.mp hx
-    exact hAllocPost_safe hs.invKeys (fun c hc x hx => hnn x (List.mem_flatMap.mpr ⟨c, hc, hx⟩))
+    exact hAllocPost_safe hk (fun c hc x hx => hnn x (List.mem_flatMap.mpr ⟨c, hc, hx⟩))
       hok c hc x hxc hp
   | reshape mv invs cs =>
     intro x hx hp
     obtain ⟨c, hc, hxc⟩ := List.mem_flatMap.mp hx
-    exact hReshape_safe hs.invKeys hs.rcIds hs.rpIds hwf.1
+    exact hReshape_safe hk hrc hrp hwf.1
       (fun c hc x hx => hnn x (List.mem_flatMap.mpr ⟨c, hc, hx⟩)) hok c hc x hxc hp
   | _ => intro x hx; cases hx
 
